@@ -33,8 +33,11 @@ CLAIMED = {
             TB + "Failed insertions are an operation of the model, the theorems and both history streams. Duplicate-key histories: "
             "multimap invariant and first-in-probe-order lookup proved for every history, oracle binding. Drawing: per-glyph "
             "decomposition and ADD-accumulate-then-composite proved at the model level over C03's region model and any per-pixel "
-            "combiner (a8 saturation and order independence via C01). Partial: which composite function the glyph loops dispatch to, "
-            "and the component-alpha / a1 / a4 same-format ADD, remain reference composition on the library.", TECH, "DESIGN.md 6/C17"),
+            "combiner; the same-format ADD shortcut = white-masked ADD for a8, a4, a1 and component-alpha a8r8g8b8 with C10's codec "
+            "(saturation, order independence); the glyph loops look up the same composite function as pixman_image_composite32 "
+            "under stated flag hypotheses (forced cover flag sound by C04; F2a/F2b shown as the boundary where the keys differ). "
+            "Every harness call runs under CPU and wall-clock watchdogs with poisoned freed memory. Partial: dispatch equality rests "
+            "on C02's EntrySound for rendering; the fast-path tables are not regenerated into Lean.", TECH, "DESIGN.md 6/C17"),
 }
 
 CLAIMED.update({
